@@ -234,6 +234,12 @@ class CMapDB:
     def _load_data(cls, name: str) -> Any:
         name = name.replace("\0", "")
         filename = "%s.pickle.gz" % name
+        # the name comes from the document: it must denote a file directly
+        # inside one of the resource directories, never a path
+        if os.path.basename(filename) != filename or (
+            os.altsep is not None and os.altsep in filename
+        ):
+            raise CMapDB.CMapNotFound(name)
         log.debug("loading: %r", name)
         cmap_paths = (
             os.environ.get("CMAP_PATH", "/usr/share/pdfminer/"),
